@@ -36,6 +36,11 @@ CHECKS = [
              "rule that optional sections are omitted only when empty, and reader(writer(x)) == norm(x) for every valid representable x. Variant forests, image tables, checksums, "
              "platform sets and .discinfo are exercised by random objects through the real dumps/loads (bounded).",
      "note": _NOTE + "; A2 (ConfigParser set/get/write/read_file incl. the effect of interpolation=None, read from the real constructor call); A5; containers bounded only"},
+    {"id": "C16", "technique": "contract-based deductive verification: loop-invariant VCs for the digest loop of the real compute_checksum (fed == content[0:pos]) + pyvc VCs/SMT for Checksums.add, Image.add_checksum and the [checksums] reader/writer",
+     "text": "compute_checksum is verified by an inductive invariant over the real while-loop: whatever chunk sizes read() returns, everything fed to the hash object is exactly the file "
+             "content in order, for every file size (establish/preserve/exit obligations discharged by SMT). Checksums.add (absolute-path refusal, normalised key, given value or true digest, frame), "
+             "Image.add_checksum (no silent replacement) and the per-entry typing of [checksums] values are verified against contracts.",
+     "note": _NOTE + "; A3 (hashlib digests the concatenation of updates; read(n) returns 1..n bytes unless EOF), A4 (normpath/join uninterpreted); [checksums] sections proved for 1-2 entries (bounded in number), termination not proved"},
     {"id": "C17", "technique": "contract-based deductive verification: symbolic execution of the real TreeInfo.serialize (all nine section writers + General.serialize) with VCs per [general] option, for 1-2 top-level variants with symbolic values + AST clause on main_variant pass-through",
      "text": "The whole TreeInfo.serialize is executed symbolically over the A2 parser model; for every path the [general] family/version/name/arch/platforms/timestamp are proved equal "
              "to [release]/[tree] values, 'variants' to the sorted top-level keys, 'variant' to the requested main variant or else the first key, packagedir/repository to that variant's "
